@@ -13,7 +13,9 @@ IN_PROCESS = ("naive", "priority", "priority-pool", "overbook", "tmpl")
 
 
 def scheduler(P: Program, key: str) -> Func:
-    return P.scheduler(key)
+    """The function registered for `key`, with its private single-purpose helpers inlined ("extract function" changes nothing)."""
+    from ..util import inline_helpers
+    return inline_helpers(P, P.scheduler(key))
 
 
 def module_helpers(P: Program, f: Func, depth: int = 3) -> List[Func]:
